@@ -42,15 +42,26 @@ class Chooser:
         self.dev = {}
         for d in deviations:
             self.dev[d[0]] = d
-        self.bounds = dict.fromkeys(KINDS, 0)
-        self.bounds.update(bounds or {})
+        # bounds: one budget vector or a list of them; an execution is inside the explored set iff its spent
+        # vector fits (componentwise) inside at least one of the vectors - the union, without duplicates
+        blist = bounds if isinstance(bounds, (list, tuple)) else [bounds or {}]
+        self.bounds_list = []
+        for b in blist:
+            v = dict.fromkeys(KINDS, 0)
+            v.update(b)
+            self.bounds_list.append(v)
         self.spent = dict.fromkeys(KINDS, 0)
         self.cps = []  # (quiescent, [labels], [kinds])
         self.last_dev = max(self.dev) if self.dev else -1
         self.trace = None  # list to append (cp index, chosen label) when tracing
 
     def remaining(self, kind):
-        return self.bounds[kind] - self.spent[kind]
+        best = 0
+        sp = self.spent
+        for b in self.bounds_list:
+            if all(sp[k] <= b[k] for k in KINDS):
+                best = max(best, b[kind] - sp[kind])
+        return best
 
     @staticmethod
     def cost_kind(alt, quiescent):
@@ -260,6 +271,7 @@ class World:
         self.capped = False
         self.p_enabled = False
         self.app_eager = False
+        self.frozen = False  # True: canonical environment, no choice points (used while a client bootstraps)
         self.extra_alts = []  # callables(world) -> [Alt] (scenario specific: kill, stop, state faults)
         self.digests = set()
         self.transitions = 0
@@ -336,7 +348,7 @@ class World:
                     self.capped = True
                     break
                 if loop._ready or self._timer_due():
-                    if self.p_enabled and chooser.remaining("p") > 0:
+                    if self.p_enabled and not self.frozen and chooser.remaining("p") > 0:
                         alts = [Alt("continue", "c", None)] + [a for a in self.enabled(False) if a.kind != "t"]
                         if len(alts) > 1:
                             j = chooser.choose(alts, quiescent=False)
@@ -348,7 +360,7 @@ class World:
                 alts = self.enabled(True)
                 if not alts:
                     raise Deadlock(f"no enabled event at t={self.now()} and main task not finished")
-                j = chooser.choose(alts, quiescent=True)
+                j = 0 if self.frozen else chooser.choose(alts, quiescent=True)
                 if len(alts) > 1:
                     self.digests.add(self._digest())
                 self.transitions += 1
@@ -436,6 +448,12 @@ def _explore_task(task):
     global _EXEC_COUNT
     scn_factory, params, bounds, dev, descend, name = task
     acc = Acc()
+    if not dev:
+        # determinism self-check: the default schedule twice, full traces compared
+        a = execute(scn_factory, params, [], bounds, trace=True)
+        b = execute(scn_factory, params, [], bounds, trace=True)
+        if a.trace[1] != b.trace[1] or a.outcome != b.outcome or a.trace[0] != b.trace[0]:
+            raise HarnessError(f"nondeterministic default execution in scenario {name} {params}")
     stack = [dev]
     children_out = []
     while stack:
@@ -449,7 +467,8 @@ def _explore_task(task):
         acc.count("choice_points", res.cps)
         acc.sets.setdefault("states", set()).update(res.digests)
         acc.distinct("outcomes", res.outcome)
-        acc.distinct("distinct", (name, tuple((i, j) for i, j, _ in d)))
+        acc.count("distinct_executions")  # the DFS never visits a deviation list twice
+        acc.count("exec:" + name)
         if res.capped:
             acc.cap(f"step cap hit in scenario {name}")
         for oracle, sig, msg in res.violations:
@@ -466,33 +485,35 @@ def _explore_task(task):
         else:
             children_out.extend(res.children)
     acc.notes["_children"] = children_out
+    acc.notes["_name"] = name
     return acc
 
 
-def explore(ctx, name, scn_factory, params, bounds, min_parallel=64):
-    """Exhaustive deviation-bounded exploration of one scenario; merges statistics into ctx."""
-    # determinism self-check: the default schedule twice, full traces compared
-    a = execute(scn_factory, params, [], bounds, trace=True)
-    b = execute(scn_factory, params, [], bounds, trace=True)
-    if a.trace[1] != b.trace[1] or a.outcome != b.outcome or a.trace[0] != b.trace[0]:
-        raise HarnessError(f"nondeterministic default execution in scenario {name} {params}")
-    frontier = [[]]
-    total = 0
+def explore_many(ctx, jobs, descend_level=2):
+    """Exhaustive deviation-bounded exploration of many scenarios with one worker pool per level.
+    jobs: [(name, scn_factory, params, bounds)].  Returns {name: executions}."""
+    byname = {j[0]: j for j in jobs}
+    frontier = [(j[0], []) for j in jobs]
     level = 0
     while frontier:
-        descend = len(frontier) >= min_parallel or level >= 2
-        tasks = [(scn_factory, params, bounds, d, descend, name) for d in frontier]
-        results = ctx.pmap(_explore_task, tasks, merge=False, chunksize=max(1, min(32, len(tasks) // (ctx.jobs * 8) or 1)))
+        descend = level >= descend_level
+        tasks = [(byname[n][1], byname[n][2], byname[n][3], d, descend, n) for n, d in frontier]
+        results = ctx.pmap(_explore_task, tasks, merge=False, chunksize=max(1, min(16, len(tasks) // (ctx.jobs * 16) or 1)))
         frontier = []
         for acc in results:
-            frontier.extend(acc.notes.pop("_children", []))
-            total += acc.counts.get("evaluations", 0)
+            n = acc.notes.pop("_name")
+            frontier.extend((n, d) for d in acc.notes.pop("_children", []))
             ctx.merge(acc)
         level += 1
         if descend:
             break
-    ctx.count("scenarios")
-    return total
+    ctx.count("scenarios", len(jobs))
+    return {n: ctx.counts.get("exec:" + n, 0) for n in byname}
+
+
+def explore(ctx, name, scn_factory, params, bounds, min_parallel=64):
+    """Exhaustive deviation-bounded exploration of one scenario; merges statistics into ctx."""
+    return explore_many(ctx, [(name, scn_factory, params, bounds)])[name]
 
 
 def replay_execution(scn_factory, data, verbose=True):
